@@ -722,10 +722,18 @@ func runGuarded(ctx *hx.Ctx, h *hist, cl string) (string, []step) {
 	return "", nil
 }
 
+var progN int
+
 func evalHist(ctx *hx.Ctx, h *hist) {
 	cl := h.caseLine()
 	il, steps := runGuarded(ctx, h, cl)
 	idx := ctx.Corr(cl, il)
+	progN++
+	if h.unrel && strings.HasPrefix(cl, "1 ") && (ctx.Tier != "quick" || (h.B() <= 1024 && progN%4 == 0)) {
+		// the same history through reorder() as translated from the Go source (coq/gen/Prog.v run by the interpreter of
+		// GVL.Imp): case kind 2
+		ctx.Corr("2 "+cl[2:], il)
+	}
 	ctx.Eval()
 	ctx.Kind(fmt.Sprintf("%s B=%d", h.gen, h.B()))
 	ctx.Nontrivial(cl)
